@@ -608,3 +608,50 @@ pub fn bad_unclamped_run(flags: &mut [u8], n: usize, i: usize, want: usize) {
         *f = 1;
     }
 }
+
+// `available = MAX - used` with a constant minuend
+pub struct NameBuf {
+    bytes: [u8; 40],
+    used: u8,
+}
+
+impl NameBuf {
+    pub fn good_name_append(&mut self, n: usize) {
+        let start = self.used as usize;
+        let available = 40 - start;
+        let take = available.min(n);
+        for b in &mut self.bytes[start..start + take] {
+            *b = 1;
+        }
+        self.used = (start + take) as u8;
+    }
+
+    pub fn good_name_live(&self) -> &[u8] {
+        &self.bytes[..self.used as usize]
+    }
+
+    pub fn name_clear(&mut self) {
+        self.used = 0;
+    }
+}
+
+pub struct NameBuf2 {
+    bytes: [u8; 40],
+    used: u8,
+}
+
+impl NameBuf2 {
+    // the amount added is not clamped to what is available
+    pub fn name_append_unclamped(&mut self, n: usize) {
+        let start = self.used as usize;
+        if start > 40 || n > 50 {
+            return;
+        }
+        let _available = 40 - start;
+        self.used = (start + n) as u8;
+    }
+
+    pub fn bad_name_live(&self) -> &[u8] {
+        &self.bytes[..self.used as usize]
+    }
+}
